@@ -36,6 +36,7 @@ CONSTANTS Props,       \* proposals of the slot, e.g. {"A", "A2", "B"}
           MaxDup,      \* how many re-deliveries of already delivered messages
           MaxLen,      \* bound on the number of handler calls explored
           MaxTimeouts, \* bound on the number of expiries in a sequence
+          MaxFire,     \* how many proposals of a sequence are handled under fire (CastUnderFire)
           MaxForged    \* distinct forgeries per block hash (under the id of the smallest other member)
 
 Self == 1
@@ -144,7 +145,8 @@ MainHashes == {HashOf(p) : p \in Props \ {"A2"}}
 Next ==
   /\ Len(hist) < MaxLen
   /\ \/ \E p \in Props : MayDeliver(Cast(p)) /\ OnCast(p)
-     \/ \E p \in Props : MayDeliver(CastUnderFire(p)) /\ Handle(CastUnderFire(p))
+     \/ \E p \in Props : /\ Cardinality({i \in 1..Len(hist) : hist[i].type = "cast" /\ hist[i].v = 1}) < MaxFire
+                          /\ MayDeliver(CastUnderFire(p)) /\ Handle(CastUnderFire(p))
      \/ \E h \in Hashes, s \in Others : MayDeliver(Verify(h, s)) /\ OnVerify(Verify(h, s))
      \/ \E p \in emitted : MayDeliver(Own(p)) /\ OnVerify(Own(p))
      \/ \E h \in MainHashes, g \in MainHashes, s \in Others :
